@@ -208,6 +208,8 @@ func checkC06(c *Ctx, r *Report) {
 			Old: "		connections := connectionStats[endpoint.URLString]", New: "		connections := connectionStats[endpoint.Name]"},
 		Mutant{Prop: "C06", Name: "rr-index-unfiltered-len", File: "internal/adapter/balancer/round_robin.go", Rule: "C06-R2",
 			Old: "	index := current % uint64(len(routable))", New: "	index := current % uint64(len(endpoints))\n	if index >= uint64(len(routable)) {\n		index = 0\n	}"},
+		Mutant{Prop: "C06", Name: "rr-ticket-truncated", File: "internal/adapter/balancer/round_robin.go", Rule: "C06-R2",
+			Old: "	index := current % uint64(len(routable))", New: "	index := uint16(current) % uint16(len(routable))"},
 	)
 }
 
@@ -277,7 +279,7 @@ func checkRoundRobin(c *Ctx, r *Report) {
 		if ld != nil {
 			ia, _ = ld.X.(*ssa.IndexAddr)
 		}
-		shape := false
+		shape, narrowed := false, false
 		if ia != nil {
 			idx := stripConv(ia.Index)
 			// a defensive clamp `if idx >= len { idx = 0 }` leaves a phi of (ticket mod len, constant): the constant edge is
@@ -331,19 +333,35 @@ func checkRoundRobin(c *Ctx, r *Report) {
 						walk(bo.Y, d-1)
 					}
 					if cv, ok := v.(*ssa.Convert); ok {
+						if narrowsInt(cv) {
+							narrowed = true
+						}
 						walk(cv.X, d-1)
 					}
 				}
 				walk(rem.X, 3)
-				shape = lenOK && fromAdd
+				shape = lenOK && fromAdd && !narrowed
 			}
 		}
 		if shape {
 			r.OK("C06-R2", key, retPos(fn, ret), "exactly one atomic ticket; pick = routable[ticket mod len(routable)]")
+		} else if narrowed {
+			r.Bad("C06-R2", key, retPos(fn, ret), "the ticket is truncated to a narrower integer before the modulus: when the truncated counter wraps, 2^bits is in general not a multiple of len(routable), so the rotation jumps — an endpoint is served twice in a row and others are skipped in that turn")
 		} else {
 			r.Bad("C06-R2", key, retPos(fn, ret), "the returned element is not routable[(ticket) mod len(routable)] with the ticket taken from the single atomic Add")
 		}
 	}
+}
+
+// narrowsInt: an integer conversion to a type of fewer bits (sizes of the build target, 64-bit).
+func narrowsInt(cv *ssa.Convert) bool {
+	sb, ok1 := cv.X.Type().Underlying().(*types.Basic)
+	db, ok2 := cv.Type().Underlying().(*types.Basic)
+	if !ok1 || !ok2 || sb.Info()&types.IsInteger == 0 || db.Info()&types.IsInteger == 0 {
+		return false
+	}
+	sz := types.SizesFor("gc", "amd64")
+	return sz.Sizeof(db) < sz.Sizeof(sb)
 }
 
 func checkGaugeKey(c *Ctx, r *Report) {
